@@ -6,7 +6,7 @@ PROP = {
     "ulimit_kb": 3_000_000,
     "timeout_quick": 600,
     "case_timeout": 30,
-    "level_text": "Proof about a hand-written executable model of helper/formula.rs AS FIXED by the fix_1..fix_9 series "
+    "level_text": "Proof about a hand-written executable model of helper/formula.rs AS FIXED by the fix_1..fix_9 series and f50ad32 (array constants) "
                   "(tokenizer passes, render, the three adjust functions), tied to the code by a differential check on every run "
                   "(token lists and rendered text compared for every request). Reference-level theorems are at full strength; "
                   "whole-formula theorems are partial (see partial_clauses).",
@@ -31,6 +31,6 @@ PROP = {
     ],
     "assumptions": ["ranges are written normalised (first corner <= second corner), as Excel writes them",
                     "sheet names in quotes do not begin with an apostrophe-only ambiguity: quoted names are printed with doubled apostrophes"],
-    "partial_clauses": ["C09_identity: proved = rendered text is the input with only blanks deleted (BlankErasure), for every input accepted by the independent scanner Spec.Clean, side condition: no function name starts with @; NOT proved = re-tokenising the rendered text gives the same token list (harness oracle 'retokenize-differs' only)", "C09_clean: proved for every AST without opaque atoms (array constants, structured references); structured / unquoted external references are tied to Spec.Clean by the 'clean' requests of the correspondence stream only", "C09_translate: proved at reference level for every well-formed reference and every (dc,dr) (C09_translate_ref) and for token lists (C09_translate_partial); NOT proved = parse('=' ++ print e) is the token list of e (lexer correctness on printed ASTs) - correspondence check + harness oracle only", "array constants are outside every theorem (known finding C09-array-const); '@' prefixes are outside the property grammar (pass 3 strips '@' from function names: =@SUM(A1) loses it - seen, not in the generated grammar)"],
+    "partial_clauses": ["C09_identity: proved = rendered text is the input with only blanks deleted (BlankErasure), for every input accepted by the independent scanner Spec.Clean, side condition: no function name starts with @; NOT proved = re-tokenising the rendered text gives the same token list (harness oracle 'retokenize-differs' only)", "C09_clean: proved for every AST without opaque atoms (structured references), array constants of numbers / negative numbers / strings / booleans / errors included; structured / unquoted external references are tied to Spec.Clean by the 'clean' requests of the correspondence stream only", "C09_translate: proved at reference level for every well-formed reference and every (dc,dr) (C09_translate_ref) and for token lists (C09_translate_partial); NOT proved = parse('=' ++ print e) is the token list of e (lexer correctness on printed ASTs) - correspondence check + harness oracle only", "array constants are inside Spec.Clean and the AST grammar since fix f50ad32 (C09_no_panic, C09_identity_partial, C09_clean_partial cover them; the token mark is observed through the verif_array_part hook); '@' prefixes are outside the property grammar (pass 3 strips '@' from function names: =@SUM(A1) loses it - seen, not in the generated grammar)"],
     "technique": "Lean 4 proof on an executable model + differential correspondence on every run",
 }
